@@ -19,12 +19,21 @@ Gen/Enums.vos Gen/Enums.vok Gen/Enums.required_vos: Gen/Enums.v
 Gen/Layouts.vo Gen/Layouts.glob Gen/Layouts.v.beautified Gen/Layouts.required_vo: Gen/Layouts.v Base/Layout.vo
 Gen/Layouts.vio: Gen/Layouts.v Base/Layout.vio
 Gen/Layouts.vos Gen/Layouts.vok Gen/Layouts.required_vos: Gen/Layouts.v Base/Layout.vos
+Gen/VmdkTables.vo Gen/VmdkTables.glob Gen/VmdkTables.v.beautified Gen/VmdkTables.required_vo: Gen/VmdkTables.v 
+Gen/VmdkTables.vio: Gen/VmdkTables.v 
+Gen/VmdkTables.vos Gen/VmdkTables.vok Gen/VmdkTables.required_vos: Gen/VmdkTables.v 
 Model/Vhd.vo Model/Vhd.glob Model/Vhd.v.beautified Model/Vhd.required_vo: Model/Vhd.v Base/Arith.vo Base/Plan.vo Base/Table.vo Gen/Consts.vo
 Model/Vhd.vio: Model/Vhd.v Base/Arith.vio Base/Plan.vio Base/Table.vio Gen/Consts.vio
 Model/Vhd.vos Model/Vhd.vok Model/Vhd.required_vos: Model/Vhd.v Base/Arith.vos Base/Plan.vos Base/Table.vos Gen/Consts.vos
+Model/Vmdk.vo Model/Vmdk.glob Model/Vmdk.v.beautified Model/Vmdk.required_vo: Model/Vmdk.v Base/Arith.vo Base/Plan.vo Base/Table.vo Base/Layout.vo Gen/Consts.vo Gen/Layouts.vo Gen/VmdkTables.vo
+Model/Vmdk.vio: Model/Vmdk.v Base/Arith.vio Base/Plan.vio Base/Table.vio Base/Layout.vio Gen/Consts.vio Gen/Layouts.vio Gen/VmdkTables.vio
+Model/Vmdk.vos Model/Vmdk.vok Model/Vmdk.required_vos: Model/Vmdk.v Base/Arith.vos Base/Plan.vos Base/Table.vos Base/Layout.vos Gen/Consts.vos Gen/Layouts.vos Gen/VmdkTables.vos
 Proofs/Vhd.vo Proofs/Vhd.glob Proofs/Vhd.v.beautified Proofs/Vhd.required_vo: Proofs/Vhd.v Base/Arith.vo Base/Plan.vo Base/Table.vo Model/Vhd.vo
 Proofs/Vhd.vio: Proofs/Vhd.v Base/Arith.vio Base/Plan.vio Base/Table.vio Model/Vhd.vio
 Proofs/Vhd.vos Proofs/Vhd.vok Proofs/Vhd.required_vos: Proofs/Vhd.v Base/Arith.vos Base/Plan.vos Base/Table.vos Model/Vhd.vos
+Props/C02.vo Props/C02.glob Props/C02.v.beautified Props/C02.required_vo: Props/C02.v Base/Plan.vo Model/Vmdk.vo
+Props/C02.vio: Props/C02.v Base/Plan.vio Model/Vmdk.vio
+Props/C02.vos Props/C02.vok Props/C02.required_vos: Props/C02.v Base/Plan.vos Model/Vmdk.vos
 Props/C04.vo Props/C04.glob Props/C04.v.beautified Props/C04.required_vo: Props/C04.v Base/Plan.vo Base/Table.vo Model/Vhd.vo Proofs/Vhd.vo
 Props/C04.vio: Props/C04.v Base/Plan.vio Base/Table.vio Model/Vhd.vio Proofs/Vhd.vio
 Props/C04.vos Props/C04.vok Props/C04.required_vos: Props/C04.v Base/Plan.vos Base/Table.vos Model/Vhd.vos Proofs/Vhd.vos
